@@ -124,6 +124,65 @@ func init() {
 		g := v.Gen(w, c, MixSwap)
 		g.MaxTx = 10
 		g.TightLimits = 0.6
+		// rebalancing bonus race: a whale pushes the oracle pool far from its target weights (the
+		// weight-breaking fees fill the rebalance treasury), then several rebalancing exact-in requests
+		// with limits equal to their quotes - each quoted against the whole treasury - land in one block:
+		// whoever executes later finds less bonus left and must still get its minimum or nothing
+		for round := 0; round < 2 && !w.Dead; round++ {
+			p1, ok := w.App.AmmKeeper.GetPool(w.ReadCtx(), 1)
+			if !ok {
+				break
+			}
+			var rUsdc, rAtom math.Int
+			for _, a := range p1.PoolAssets {
+				if a.Token.Denom == "uusdc" {
+					rUsdc = a.Token.Amount
+				} else {
+					rAtom = a.Token.Amount
+				}
+			}
+			whale := u[12+round%2]
+			if round == 1 {
+				// second round: only a sliver of the weight-breaking fee reaches the treasury, so the
+				// bonuses quoted exceed what the treasury can pay
+				ap := w.App.AmmKeeper.GetParams(w.ReadCtx())
+				ap.WeightBreakingFeePortion = chain.Dec("0.002")
+				if w.GovExec("small treasury share", &ammtypes.MsgUpdateParams{Authority: w.Gov, Params: &ap}) {
+					c.Ev("treasury_share_lowered")
+				}
+			}
+			if round == 0 {
+				w.Step(5, w.Tx(whale, in1(whale, 1, "uusdc", rUsdc.MulRaw(8).Int64(), "uatom", 1, "")))
+			} else {
+				w.Step(5, w.Tx(whale, in1(whale, 1, "uatom", rAtom.MulRaw(40).Int64(), "uusdc", 1, "")))
+			}
+			w.Step(5)
+			if w.Dead {
+				break
+			}
+			if round == 1 {
+				// ... and now the whole fee rate is promised as a bonus
+				ap := w.App.AmmKeeper.GetParams(w.ReadCtx())
+				ap.WeightBreakingFeePortion = chain.Dec("1")
+				if w.GovExec("full bonus", &ammtypes.MsgUpdateParams{Authority: w.Gov, Params: &ap}) {
+					c.Ev("bonus_rate_raised_over_a_small_treasury")
+				}
+			}
+			ctx := w.ReadCtx()
+			txs := []*chain.TxRecord{}
+			for i, a := range u[2:6] {
+				var m sdk.Msg
+				if round == 0 {
+					m = in1(a, 1, "uatom", rAtom.QuoRaw(int64(12+i*5)).Int64()+1, "uusdc", 1, "")
+				} else {
+					m = in1(a, 1, "uusdc", rUsdc.QuoRaw(int64(12+i*5)).Int64()+1, "uatom", 1, "")
+				}
+				txs = append(txs, w.Tx(a, g.TightenWith(m, ctx, 0)))
+			}
+			w.Step(5, txs...)
+			c.Ev("rebalancing_bonus_race_batches")
+			w.Step(5)
+		}
 		g.Free(c.N(120, 400), func(i int) int64 {
 			if i%15 == 14 {
 				return 5
